@@ -42,7 +42,7 @@ DECIDING = [
 ]
 BRANCHES = ["get_sparse_operator:gap-identity", "get_sparse_operator:trailing-identity",
             "expectation:density-matrix", "expectation:row-vector", "expectation:column-vector"]
-BUDGET = {"quick": (4, 20, 2500), "thorough": (16, 150, 100000)}
+BUDGET = {"quick": (4, 20, 1500), "thorough": (16, 150, 100000)}
 
 MAXN = 7
 _LIB = None
